@@ -277,7 +277,7 @@ ValidGeneric(c) ==
 -----------------------------------------------------------------------------
 (* Error metrics on integer tensors as exact rationals <<num, den>> per reduced slice.            *)
 MetricOps == {"MSE", "RMSE", "covariance", "variance", "std", "correlation", "reflective", "R2"}
-MetricShapes == {<<n>> : n \in 2..4} \cup {<<a, b>> : a, b \in 2..4} \cup {<<a, b, c>> : a, b, c \in 2..3}
+MetricShapes == {<<1>>, <<1, 3>>} \cup {<<n>> : n \in 2..4} \cup {<<a, b>> : a, b \in 2..4} \cup {<<a, b, c>> : a, b, c \in 2..3}
 MaxVal == 3
 AxNone == 99            \* axis=None (integers only: TLC refuses to compare an integer with a string)
 NormAxis(shape, ax) == IF ax = AxNone THEN AxNone ELSE IF ax < 0 THEN ax + Len(shape) ELSE ax
@@ -286,6 +286,13 @@ NormAxis(shape, ax) == IF ax = AxNone THEN AxNone ELSE IF ax < 0 THEN ax + Len(s
 ShiftInvariant(op) == op \in {"MSE", "RMSE", "covariance", "variance", "std", "correlation"}
 Offsets == {<<20, "f64">>, <<30, "f64">>, <<40, "f64">>, <<10, "f32">>}
 OffShapes == {<<4>>, <<3, 4>>, <<2, 3, 2>>}
+\* CALL FORM ("std" arrays positional + axis by keyword, "pos" everything positional in the published order, "kw"
+\* everything by its published name: the harness holds the names in a frozen table), VALUE spelling of the zeros
+\* ("negzero": -0.0, "subnormal": 5e-324 -- equal to 0 for every clause) and ALIASING (same = TRUE: the second array IS
+\* the first, one object) are rotated over the configurations:
+CallForms == <<"std", "pos", "kw">>
+ZeroSpellings == <<"plain", "negzero", "subnormal">>
+MetricRot(sh, ax, k) == Size(sh) + Len(sh) + (IF ax = AxNone THEN 7 ELSE ax + 4) + k
 \* memory layout of BOTH arrays handed to a metric: C order, Fortran order, a non-contiguous view, read-only arrays
 MetricLayouts == {"C", "F", "strided", "ro"}
 ValidMetric(c) ==
@@ -294,6 +301,10 @@ ValidMetric(c) ==
     /\ \/ c.off = 0 /\ c.dt = "f64"
        \/ ShiftInvariant(c.op) /\ <<c.off, c.dt>> \in Offsets /\ c.shape \in OffShapes
     /\ c.lay \in MetricLayouts /\ (c.lay # "C" => c.off = 0 /\ c.shape \in OffShapes)
+    /\ LET plain == c.off = 0 /\ c.lay = "C"   h == MetricRot(c.shape, c.axis, c.k) IN
+       /\ c.call = (IF plain THEN CallForms[(h % 3) + 1] ELSE "std")
+       /\ c.val = (IF plain THEN ZeroSpellings[((h \div 3) % 3) + 1] ELSE "plain")
+       /\ c.same = (plain /\ h % 4 = 0)
 DropAt(s, k) == SubSeq(s, 1, k - 1) \o SubSeq(s, k + 1, Len(s))
 InsAt(s, k, x) == SubSeq(s, 1, k - 1) \o <<x>> \o SubSeq(s, k, Len(s))
 MetricOutShape(shape, ax) == IF ax = AxNone THEN <<>> ELSE DropAt(shape, ax + 1)
@@ -357,7 +368,8 @@ LevExactOK(c) ==
     /\ SumSeq([i \in 1..(3 + c.pad) |-> LevNum(c.f, c.idxs, c.pad, i)]) = L * LevRank(c.idxs)    \* sums to one
     /\ \A i \in 1..(3 + c.pad) : LevNum(c.f, c.idxs, c.pad, i) >= 0
 LevFlavours == {"normal", "lowrank", "f32", "int", "F", "strided", "ro"}      \* the last three: memory layouts of a random matrix
-ValidLev(c) == c.rows \in 2..9 /\ c.cols \in 1..4 /\ c.flavour \in LevFlavours /\ c.k \in 1..LevDraws
+ValidLev(c) == /\ c.rows \in 1..9 /\ c.cols \in 1..4 /\ c.flavour \in LevFlavours /\ c.k \in 1..LevDraws
+               /\ c.call = CallForms[((c.rows + c.cols + c.k) % 3) + 1]
 
 -----------------------------------------------------------------------------
 (* Design run: the domain enumerated as states; SpecOK evaluated in every state.                  *)
@@ -381,13 +393,16 @@ CfgsOf(sd) ==
             {[kind |-> "generic", R |-> sd.R, M |-> m, prof |-> pr, rows |-> SubSeq(RowProfiles[pr], 1, m), flavour |-> fl, k |-> k] :
                 m \in 1..3, pr \in 1..Len(RowProfiles), fl \in GenFlavours, k \in 1..GenDraws}
       [] sd.fam = "metric" ->
-            {c \in UNION {{[kind |-> "metric", op |-> sd.op, shape |-> sh, axis |-> ax, off |-> o[1], dt |-> o[2], lay |-> ly, k |-> k] :
+            {c \in UNION {{[kind |-> "metric", op |-> sd.op, shape |-> sh, axis |-> ax, off |-> o[1], dt |-> o[2], lay |-> ly, k |-> k,
+                              call |-> (IF o[1] = 0 /\ ly = "C" THEN CallForms[(MetricRot(sh, ax, k) % 3) + 1] ELSE "std"),
+                              val |-> (IF o[1] = 0 /\ ly = "C" THEN ZeroSpellings[((MetricRot(sh, ax, k) \div 3) % 3) + 1] ELSE "plain"),
+                              same |-> (o[1] = 0 /\ ly = "C" /\ MetricRot(sh, ax, k) % 4 = 0)] :
                               ax \in {AxNone} \cup ((-Len(sh))..(Len(sh) - 1)), k \in 1..MetricDraws, ly \in MetricLayouts,
                               o \in {<<0, "f64">>} \cup Offsets} : sh \in MetricShapes}
                 : ValidMetric(c) /\ (c.off # 0 => c.k = 1) /\ (c.lay # "C" => c.k = 1)}
       [] sd.fam = "lev" ->
-            {[kind |-> "lev", rows |-> r, cols |-> cl, flavour |-> fl, k |-> k] :
-                r \in {2, 3, 5, 9}, cl \in 1..4, fl \in LevFlavours, k \in 1..LevDraws}
+            {[kind |-> "lev", rows |-> r, cols |-> cl, flavour |-> fl, k |-> k, call |-> CallForms[((r + cl + k) % 3) + 1]] :
+                r \in {1, 2, 3, 5, 9}, cl \in 1..4, fl \in LevFlavours, k \in 1..LevDraws}
       [] sd.fam = "levexact" ->
             {[kind |-> "levexact", f |-> sd.f, idxs |-> ix, pad |-> sd.pad, A |-> LevMatrix(sd.f, ix, sd.pad)] :
                 ix \in {x \in UNION {SeqsOver(0..3, n) : n \in 1..LevMaxCols} :
